@@ -96,6 +96,10 @@ def contexts(leaf):
         out.append(dyn([qwc(N("HLtOutlives", [N("HLErased"), leaf]))], N("HLErased")))
         out.append(dyn([qwc(N("HTyOutlives", [u8, leaf]))], N("HLErased")))
         out.append(dyn([qwc(N("HImplemented", [tr([])]))], leaf))
+    # a dyn WITHOUT bounds (not expressible in surface syntax, but a valid TyKind): only its lifetime contributes
+    if k == "L":
+        out.append(dyn([], leaf))
+        out.append(N(("HRef", "Not"), [N("HLErased"), dyn([], leaf)]))
     # two-bound dyns: the flagged leaf in the first bound, every kind of clause as the second one, and reversed
     # (an arm of the dyn loop that overwrites instead of OR-ing only shows with >= 2 bounds)
     first = qwc(N("HImplemented", [tr([leaf])]))
